@@ -224,9 +224,10 @@ class Watcher(object):
         self.virtualenv_py_ver = virtualenv_py_ver
         self.max_age = int(max_age)
         self.max_age_variance = int(max_age_variance)
-        self.ignore_hook_failure = ['before_stop', 'after_stop',
-                                    'before_signal', 'after_signal',
-                                    'extended_stats']
+        self._default_ignore_hook_failure = ('before_stop', 'after_stop',
+                                             'before_signal', 'after_signal',
+                                             'extended_stats')
+        self.ignore_hook_failure = list(self._default_ignore_hook_failure)
 
         self.respawn = respawn
         self.autostart = autostart
@@ -377,7 +378,13 @@ class Watcher(object):
                                             reload=reload_module)
 
         if ignore_failure:
-            self.ignore_hook_failure.append(name)
+            if name not in self.ignore_hook_failure:
+                self.ignore_hook_failure.append(name)
+        elif (name in self.ignore_hook_failure and
+              name not in self._default_ignore_hook_failure):
+            # a hook that replaces one installed with the ignore-failure
+            # flag does not inherit that flag
+            self.ignore_hook_failure.remove(name)
 
     def _resolve_hooks(self, hooks):
         """Check the supplied hooks argument to make sure we can find
